@@ -293,3 +293,64 @@ def resolve_expr(rd, node, expr, depth=6):
                 return n
             return resolve_expr(rd, d, d.ast.value, depth - 1)
     return Sub().visit(A.clone(expr))
+
+
+# ---------------------------------------------------------------------------------- connection state: constructor table
+# confirmed by reading Connection.__init__ on the reference tree; one line of reason per field
+STATE_CTORS = {
+    "_request_callbacks": ("dict", "strong references: the table is the only thing that keeps an AsyncResult nobody else holds "
+                                   "alive until its reply arrives (a weak table drops the reply and the callbacks never run)"),
+    "_proxy_cache": ("WeakValueDict", "weak values: a strong cache keeps every proxy - and through it the remote object - alive "
+                                      "for the life of the connection (no release notice is ever sent)"),
+    "_local_objects": ("RefCountingColl", "counted exports: a plain dict forgets an object on the first release although the "
+                                          "peer still holds other references"),
+    "_netref_classes_cache": ("dict", "per-connection cache of proxy classes"),
+    "_send_queue": ("list", "FIFO hand-off of encoded messages (append / pop(0))"),
+    "_seqcounter": ("itertools.count", "monotonic sequence numbers, never reused while the connection lives"),
+    "_sendlock": ("Lock", "plain non-reentrant lock: the failed try-acquire is the re-entrancy hand-off"),
+    "_recvlock": ("Lock", "plain lock: exactly one receiver at a time"),
+    "_recv_event": ("Condition", "waiters sleep on it while another thread receives"),
+}
+
+
+def _ctor_kind(v):
+    if isinstance(v, ast.Dict) and not v.keys:
+        return "dict"
+    if isinstance(v, ast.List) and not v.elts:
+        return "list"
+    if isinstance(v, ast.Call) and not v.args and not v.keywords:
+        d = A.call_name(v) or ""
+        if d in ("dict", "list"):
+            return d
+        if d.split(".")[-1] in ("Lock", "Condition", "WeakValueDict", "RefCountingColl"):
+            return d.split(".")[-1]
+        if d in ("itertools.count", "count"):
+            return "itertools.count"
+    return A.src(v)
+
+
+def connection_state(ctx, rep, rule, fields):
+    """the listed Connection fields are created by the constructor the protocol relies on"""
+    cq = CONN
+    for fld in fields:
+        want, why = STATE_CTORS[fld]
+        v = init_field_ctor(ctx, cq, fld)
+        got = _ctor_kind(v) if v is not None else "<not assigned in __init__>"
+        init = ctx.repo.method(ctx.cls(cq), "__init__")
+        rep.ob(rule, "Connection.__init__: %s is a %s" % (fld, want), got == want,
+               "%s()" % want if got == want else "self.%s is created as `%s`, not %s - %s" % (fld, got, want, why),
+               ctx.loc(v) if v is not None else init.loc, kind="table")
+        # no other method rebinds the field
+        others = []
+        for m in ctx.cls(cq).methods.values():
+            if m.name == "__init__":
+                continue
+            for n in A.walk(m.node):
+                if isinstance(n, (ast.Assign, ast.AugAssign)):
+                    tg = n.targets if isinstance(n, ast.Assign) else [n.target]
+                    if any(self_attr(t, fld) for t in tg):
+                        others.append((m, n))
+        rep.ob(rule, "Connection: %s is bound once, in __init__" % fld, not others,
+               "no other method rebinds it" if not others else
+               "%s rebinds self.%s (`%s`): %s" % (others[0][0].name, fld, A.norm(others[0][1])[:60], why),
+               ctx.loc(others[0][1]) if others else init.loc, kind="site")
